@@ -156,7 +156,7 @@ Definition ref_bounded (lend : Z) (ref : iref) : Prop :=
   NoDup (map bnum (rbins ref)).
 
 Definition rec_shape (R : irec) : Prop :=
-  q_placed R = true /\ 0 <= q_start R < q_end R /\ q_end R <= ix_bai_limit /\ q_cb R < q_ce R.
+  q_placed R = true /\ 0 <= q_start R < q_end R /\ q_end R <= ix_bai_limit + 1 /\ q_cb R < q_ce R.
 
 Record Inv (ix : index) (seen : list irec) (lrid lstart lend : Z) : Prop := mkInv {
   inv_len : zlen (irefs ix) = lrid + 1;
@@ -209,14 +209,14 @@ Qed.
 Lemma add_placed_inv ix seen lrid lstart lend r :
   Inv ix seen lrid lstart lend -> q_placed r = true ->
   0 <= q_rid r -> lrid <= q_rid r -> (q_rid r = lrid -> lstart <= q_start r) ->
-  0 <= q_start r < q_end r -> q_end r <= ix_bai_limit -> lend <= q_cb r < q_ce r ->
+  0 <= q_start r < q_end r -> q_end r <= ix_bai_limit + 1 -> lend <= q_cb r < q_ce r ->
   exists ix', ix_add ix r = Ok ix' /\ Inv ix' (r :: seen) (q_rid r) (q_start r) (q_ce r).
 Proof.
   intros I Hp Hrid0 Hrid Hst Hse Hlim Hc.
   destruct I as [Ilen Ilrid Ilend Ilast Iuns Irefs Iseen].
   unfold ix_add.
   assert (V1 : ix_valid_pos (q_start r) = true) by (apply valid_pos_iff; lia).
-  assert (V2 : ix_valid_pos (q_end r) = true) by (apply valid_pos_iff; lia).
+  assert (V2 : ix_valid_pos (q_end r - 1) = true) by (apply valid_pos_iff; lia).
   rewrite V1, V2, Hp. simpl negb. change (false || false) with false. cbv iota.
   set (rid := q_rid r) in *.
   destruct (rid <? 0) eqn:E0; [apply Z.ltb_lt in E0; lia|].
@@ -299,11 +299,12 @@ Qed.
 
 Lemma add_unplaced_inv ix seen lrid lstart lend r :
   Inv ix seen lrid lstart lend -> q_placed r = false ->
-  -1 <= q_start r <= ix_bai_limit -> -1 <= q_end r <= ix_bai_limit ->
+  -1 <= q_start r <= ix_bai_limit -> 0 <= q_end r <= ix_bai_limit + 1 ->
   exists ix', ix_add ix r = Ok ix' /\ Inv ix' seen lrid lstart lend.
 Proof.
   intros I Hp H1 H2. unfold ix_add.
-  rewrite (proj2 (valid_pos_iff _) H1), (proj2 (valid_pos_iff _) H2), Hp. simpl.
+  assert (H2' : -1 <= q_end r - 1 <= ix_bai_limit) by lia.
+  rewrite (proj2 (valid_pos_iff _) H1), (proj2 (valid_pos_iff _) H2'), Hp. simpl.
   eexists. split; [reflexivity|]. destruct I. constructor; simpl; assumption.
 Qed.
 
